@@ -59,30 +59,44 @@ Definition init (cfg : list N) : state :=
 Definition randomized (p : params) : bool :=
   match p_kind p, p_rf p with KExpo, Some _ => true | _, _ => false end.
 
+(* events *)
+Inductive ev := ENext | ENextV (k v : N) | EReset | EAdv (d : N) | EProbe (c mx : N).
+
+Definition decode (e : list N) : option ev :=
+  match e with
+  | [1] => Some ENext
+  | [1; k; v] => Some (ENextV k v)
+  | [2] => Some EReset
+  | [3; d] => Some (EAdv d)
+  | [4; c; mx] => Some (EProbe c mx)
+  | _ => None
+  end.
+
 Definition step (st : state) (e : list N) : option (state * list N) :=
   match st with
   | StBad => None
   | StOk p b now =>
-    match e with
-    | [1] =>
+    match decode e with
+    | Some ENext =>
       if randomized p then None
-      else let '(r, b') := bo_next p now b in Some (StOk p b' now, enc_res r)
-    | [1; k; v] =>
+      else Some (StOk p (snd (bo_next p now b)) now, enc_res (fst (bo_next p now b)))
+    | Some (ENextV k v) =>
       if randomized p then
-        let '(lo, hi) := bo_range p (b_cur b) in
+        let hi := snd (bo_range p (b_cur b)) in
+        let lo := fst (bo_range p (b_cur b)) in
         if k =? 1 then
           if (lo <=? v) && (v <=? hi) && negb (stops p now b v)
-          then let '(r, b') := bo_next_v p now b v in Some (StOk p b' now, enc_res r)
+          then Some (StOk p (snd (bo_next_v p now b v)) now, enc_res (fst (bo_next_v p now b v)))
           else None
         else if k =? 0 then
           if (v =? 0) && stops p now b hi
-          then let '(r, b') := bo_next_v p now b hi in Some (StOk p b' now, enc_res r)
+          then Some (StOk p (snd (bo_next_v p now b hi)) now, enc_res (fst (bo_next_v p now b hi)))
           else None
         else None
       else None
-    | [2] => Some (StOk p (bo_reset p now) now, [])
-    | [3; d] => Some (StOk p b (now + d * ms), [(now + d * ms) / ms])
-    | [4; c; mx] =>
+    | Some EReset => Some (StOk p (bo_reset p now) now, [])
+    | Some (EAdv d) => Some (StOk p b (now + d * ms), [(now + d * ms) / ms])
+    | Some (EProbe c mx) =>
       match p_kind p with
       | KExpo =>
         let q := fdiv mx (p_mult p) in
@@ -92,7 +106,7 @@ Definition step (st : state) (e : list N) : option (state * list N) :=
         else None
       | KConst => None
       end
-    | _ => None
+    | None => None
     end
   end.
 
@@ -115,18 +129,18 @@ Definition minit (cfg : list N) : mstate :=
 Definition fails (l : list (nat * bool)) : list (nat * nat) :=
   map (fun c => (14%nat, fst c)) (filter (fun c => negb (snd c)) l).
 
+Definition is_next (e : list N) : bool :=
+  match decode e with Some ENext | Some (ENextV _ _) => true | _ => false end.
+
 Definition mon (m : mstate) (e o : list N) : mstate * list (nat * nat) :=
   match m with
   | MBad => (m, [])
-  | MConst c =>
-    match e with
-    | 1 :: _ => (m, fails [(26%nat, list_eqb o [1; c])])
-    | _ => (m, [])
-    end
+  | MConst c => if is_next e then (m, fails [(26%nat, list_eqb o [1; c])]) else (m, [])
   | MExpo p cur start now fresh =>
-    match e with
-    | 1 :: _ =>
-      let '(lo, hi) := bo_range p cur in
+    match decode e with
+    | Some ENext | Some (ENextV _ _) =>
+      let lo := fst (bo_range p cur) in
+      let hi := snd (bo_range p cur) in
       let m' := MExpo p (grow (p_max p) (p_mult p) cur) start now false in
       match o with
       | [0] => (m', fails [(21%nat, negb (p_maxel p =? 0));
@@ -134,8 +148,8 @@ Definition mon (m : mstate) (e o : list N) : mstate * list (nat * nat) :=
       | [1; v] => (m', fails [((if fresh then 23 else 22)%nat, (lo <=? v) && (v <=? hi))])
       | _ => (m', [(14, if fresh then 23 else 22)%nat])
       end
-    | [2] => (MExpo p (p_init p) now now true, [])
-    | [3; d] => (MExpo p cur start (now + d * ms) fresh, [])
+    | Some EReset => (MExpo p (p_init p) now now true, [])
+    | Some (EAdv d) => (MExpo p cur start (now + d * ms) fresh, [])
     | _ => (m, [])
     end
   end.
